@@ -66,7 +66,7 @@ Qed.
 Print Assumptions C14_ordered_pairset_laws.
 
 (* The specification function terminates on every schema and document: with
-   collect_fuel = #fragment definitions and depth_fuel = 2 * #fields^2 + 1 neither fuel is
+   collect_fuel = #fragment definitions and depth_fuel = 2 * #fields^2 + 1 (the number of distinct (field, field, mode) pairs + 1) neither fuel is
    exhausted, whatever the spread graph (cyclic, mutually recursive). *)
 Theorem C14_terminates : forall s d, spec_verdict s d <> VFuel.
 Proof. exact spec_verdict_terminates. Qed.
@@ -119,11 +119,11 @@ Proof. vm_compute. reflexivity. Qed.
 
 (* different object parents: differing field names are allowed, differing shapes are not *)
 Example C14_example_exclusive :
-  let doc (n2 : N) := mkDoc [(10, SelInline (Some 11) (SelField (fl 1 40 30) SelNil SelNil)
-                                  (SelInline (Some 12) (SelField (fl 2 40 n2) SelNil SelNil) SelNil))] [] in
+  let doc (n2 : N) := mkDoc [(10, SelInline 90 (Some 11) (SelField (fl 1 40 30) SelNil SelNil)
+                                  (SelInline 91 (Some 12) (SelField (fl 2 40 n2) SelNil SelNil) SelNil))] [] in
   spec_verdict ex_schema (doc 30) = VNo /\ spec_verdict ex_schema (doc 31) = VConflict /\
   spec_verdict ex_schema
-    (mkDoc [(10, SelInline (Some 11) (SelField (fl 1 40 30) SelNil (SelField (fl 2 40 31) SelNil SelNil)) SelNil)] [])
+    (mkDoc [(10, SelInline 90 (Some 11) (SelField (fl 1 40 30) SelNil (SelField (fl 2 40 31) SelNil SelNil)) SelNil)] [])
   = VConflict.
 Proof. vm_compute. repeat split. Qed.
 
